@@ -126,8 +126,10 @@ def canon_tree(t):
         v = t.get_ndata(k)
         if np.issubdtype(v.dtype, np.floating):
             cols[k] = np.asarray(v, dtype=np.float64).tobytes()
-        else:
+        elif np.issubdtype(v.dtype, np.integer) or v.dtype == bool:
             cols[k] = tuple(int(x) for x in v.tolist())
+        else:  # strings / objects
+            cols[k] = tuple(repr(x) for x in v.tolist())
     return (len(t), cols, tuple(t.comments))
 
 
